@@ -135,8 +135,10 @@ class SocketModel(_socket.socket):
         rec = st.rec(ref)
         if name == "recv":
             bufsize = zint(args[0])
-            if not st.must(bufsize >= 1):
-                raise Unsupported("recv with bufsize < 1 not excluded")
+            if st.branch(mk_bool(bufsize < 0)):
+                ex.bm.raise_(ValueError, "negative buffersize in recv")
+            if st.branch(mk_bool(bufsize == 0)):
+                return b""  # recv(0) returns no data, whatever is pending
             total, n, d = rec["total"], rec["n"], rec["d"]
             if st.branch(mk_bool(d < n)):
                 m = z3.Int(fresh_name("chunk"))
